@@ -4,12 +4,20 @@
 /* ghosts used by contracts/plain.ovl */
 size_t cqv_any_bytes;   /* size of the output object when count cannot be honoured */
 size_t cqv_j;           /* arbitrary element index instead of a quantifier */
-#ifdef CQV_HUGE
+/* Since /repo 0b65e1b the decoders reject counts whose encoded size exceeds input_size, so NO bound on count is assumed
+ * any more (count ranges over all of int64).  When count cannot be honoured by a real object (count < 0 or
+ * count*width > 2^40) the output is an arbitrary object of cqv_any_bytes bytes and the decoder must reject.
+ * Only carquet_decode_plain_byte_array keeps A2 (CQV_COUNT_A2): it has no fixed width to pre-check and relies on the
+ * caller's output really having `count` elements. */
 #define CQV_COUNT_OK(c, max) 1
-#else
-#define CQV_COUNT_OK(c, max) ((c) <= (int64_t)(max))   /* A2: the output object of c elements is <= 2^40 bytes */
-#endif
+#define CQV_COUNT_A2(c, max) ((c) <= (int64_t)(max))
 #define CQV_OUT_BYTES(c, sh) (((c) >= 0 && (c) <= (int64_t)(CQV_MAXBUF >> (sh))) ? ((size_t)(c) << (sh)) : cqv_any_bytes)
+/* ghosts of the encoder contracts in the same overlay (defined in stubs/plain_stubs.c; unused by the decoder jobs) */
+#include <carquet/error.h>
+struct carquet_buffer;
+extern size_t cqv_g, cqv_total; extern int cqv_watch, cqv_calls, cqv_rec_kind; extern size_t cqv_rec_size;
+extern uint32_t cqv_rec_u32; extern uint8_t *cqv_rec_ptr; extern const void *cqv_rec_data;
+extern struct carquet_buffer *cqv_rec_buf; extern carquet_status_t cqv_rec_ret; extern int64_t cqv_cur;
 #include "src/encoding/plain.c"
 
 /* no do/while(0) here: a loop in the harness makes the loop-contract pass inline the callee before --enforce-contract */
@@ -20,6 +28,7 @@ void h_plain_boolean(void) {
   int64_t count = nondet_i64();
   int64_t r = carquet_decode_plain_boolean(nondet_ptr(), nondet_size_t(), nondet_ptr(), count);
   if (count < 0) CQV_CANARY("negative count is covered");
+  if (count > ((int64_t)1 << 62)) CQV_CANARY("count > 2^62 is covered");
   CQV_CANARY("returns"); if (r >= 0) CQV_CANARY("can succeed"); if (r > 0) CQV_CANARY("can consume bytes"); if (r < 0) CQV_CANARY("can fail");
 }
 void h_plain_int32(void) {
@@ -27,6 +36,7 @@ void h_plain_int32(void) {
   int64_t count = nondet_i64();
   int64_t r = carquet_decode_plain_int32(nondet_ptr(), nondet_size_t(), nondet_ptr(), count);
   if (count < 0) CQV_CANARY("negative count is covered");
+  if (count > ((int64_t)1 << 62)) CQV_CANARY("count > 2^62 is covered");
   CQV_CANARY("returns"); if (r > 0) CQV_CANARY("can consume bytes"); if (r < 0) CQV_CANARY("can fail");
 }
 void h_plain_int64(void) {
@@ -34,6 +44,7 @@ void h_plain_int64(void) {
   int64_t count = nondet_i64();
   int64_t r = carquet_decode_plain_int64(nondet_ptr(), nondet_size_t(), nondet_ptr(), count);
   if (count < 0) CQV_CANARY("negative count is covered");
+  if (count > ((int64_t)1 << 62)) CQV_CANARY("count > 2^62 is covered");
   CQV_CANARY("returns"); if (r > 0) CQV_CANARY("can consume bytes"); if (r < 0) CQV_CANARY("can fail");
 }
 void h_plain_int96(void) {
@@ -41,6 +52,7 @@ void h_plain_int96(void) {
   int64_t count = nondet_i64();
   int64_t r = carquet_decode_plain_int96(nondet_ptr(), nondet_size_t(), nondet_ptr(), count);
   if (count < 0) CQV_CANARY("negative count is covered");
+  if (count > ((int64_t)1 << 62)) CQV_CANARY("count > 2^62 is covered");
   CQV_CANARY("returns"); if (r > 0) CQV_CANARY("can consume bytes"); if (r < 0) CQV_CANARY("can fail");
 }
 void h_plain_float(void) {
@@ -48,6 +60,7 @@ void h_plain_float(void) {
   int64_t count = nondet_i64();
   int64_t r = carquet_decode_plain_float(nondet_ptr(), nondet_size_t(), nondet_ptr(), count);
   if (count < 0) CQV_CANARY("negative count is covered");
+  if (count > ((int64_t)1 << 62)) CQV_CANARY("count > 2^62 is covered");
   CQV_CANARY("returns"); if (r > 0) CQV_CANARY("can consume bytes"); if (r < 0) CQV_CANARY("can fail");
 }
 void h_plain_double(void) {
@@ -55,6 +68,7 @@ void h_plain_double(void) {
   int64_t count = nondet_i64();
   int64_t r = carquet_decode_plain_double(nondet_ptr(), nondet_size_t(), nondet_ptr(), count);
   if (count < 0) CQV_CANARY("negative count is covered");
+  if (count > ((int64_t)1 << 62)) CQV_CANARY("count > 2^62 is covered");
   CQV_CANARY("returns"); if (r > 0) CQV_CANARY("can consume bytes"); if (r < 0) CQV_CANARY("can fail");
 }
 void h_plain_byte_array(void) {
@@ -73,9 +87,6 @@ void h_plain_fixed(void) {
   __CPROVER_assume(input_size <= CQV_MAXBUF && cqv_any_bytes <= CQV_MAXBUF);
   __int128 prod = (__int128)count * (__int128)fixed_len;
   _Bool honest = count >= 0 && fixed_len > 0 && prod <= (__int128)CQV_MAXBUF;
-#ifndef CQV_HUGE
-  __CPROVER_assume(count < 0 || fixed_len <= 0 || honest);   /* A2 for the output object */
-#endif
   size_t out_bytes = honest ? (size_t)prod : cqv_any_bytes;
   uint8_t *in = nondet_bool() ? malloc(input_size) : NULL;
   uint8_t *out = nondet_bool() ? malloc(out_bytes) : NULL;
@@ -98,7 +109,6 @@ static int64_t dispatch_common(int fixed_only) {
     __CPROVER_assume(type == CARQUET_PHYSICAL_FIXED_LEN_BYTE_ARRAY);
     __int128 prod = (__int128)count * (__int128)type_length;
     _Bool honest = count >= 0 && type_length > 0 && prod <= (__int128)CQV_MAXBUF;
-    __CPROVER_assume(count < 0 || type_length <= 0 || honest);
     if (honest) out_bytes = (size_t)prod;
   } else {
     __CPROVER_assume(type != CARQUET_PHYSICAL_FIXED_LEN_BYTE_ARRAY);
@@ -107,12 +117,13 @@ static int64_t dispatch_common(int fixed_only) {
     else if (type == CARQUET_PHYSICAL_INT32 || type == CARQUET_PHYSICAL_FLOAT) sh = 2;
     else if (type == CARQUET_PHYSICAL_INT64 || type == CARQUET_PHYSICAL_DOUBLE) sh = 3;
     else if (type == CARQUET_PHYSICAL_BYTE_ARRAY) sh = 4;
-    if (sh >= 0) {
-      __CPROVER_assume(count <= (int64_t)(CQV_MAXBUF >> sh));          /* A2 */
-      if (count >= 0) out_bytes = (size_t)count << sh;
+    if (type == CARQUET_PHYSICAL_BYTE_ARRAY) __CPROVER_assume(count <= (int64_t)(CQV_MAXBUF >> 4));   /* A2, byte arrays only */
+    if (sh == 0) {
+      if (count >= 0 && count <= (int64_t)(CQV_MAXBUF << 3)) out_bytes = (size_t)count;
+    } else if (sh > 0) {
+      if (count >= 0 && count <= (int64_t)(CQV_MAXBUF >> sh)) out_bytes = (size_t)count << sh;
     } else if (type == CARQUET_PHYSICAL_INT96) {
-      __CPROVER_assume(count <= (int64_t)(CQV_MAXBUF >> 4));           /* A2 */
-      if (count >= 0) out_bytes = ((size_t)count << 3) + ((size_t)count << 2);
+      if (count >= 0 && count <= (int64_t)(CQV_MAXBUF / 12)) out_bytes = ((size_t)count << 3) + ((size_t)count << 2);
     }
   }
   uint8_t *in = nondet_bool() ? malloc(input_size) : NULL;
